@@ -131,6 +131,8 @@ static int transition(const uint16_t *hist, int d, int opi, char *ckey, int verb
     for (int i = 0; i < d; i++) { snprintf(after, sizeof after, "step %d (op %d)", i, hist[i]); apply(v, &m, &OPS[hist[i]], verbose, after); if (verbose) observe(v, &m, after); }
     vc_asan_check();   /* reports raised by the history prefix belong to the transitions that ended in those ops */
     snprintf(after, sizeof after, "op %d", opi);
+    for (int i = 0; i < m.n; i++) { void *d = v->getat(v, i, true); if (d) sm_hold(d, ELB[m.e[i]], OSZ, "qvector_getat(newmem) taken before the operation"); }
+    if (m.n) { size_t cnt = 0; void *a = v->toarray(v, &cnt); if (a) sm_hold(a, a, cnt * OSZ, "qvector_toarray taken before the operation"); }
     if (apply(v, &m, &OPS[opi], 1, after) == 1) { sm_release_held(); v->free(v); return 1; }
     canon(v, ckey);
     char want[80], *p = want; for (int i = 0; i < m.n; i++) *p++ = '0' + m.e[i]; *p = 0;
